@@ -732,6 +732,15 @@ func runC19(c *core.Ctx) {
 			var ea, eb []byte
 			mk(a).Encode(&ea, false)
 			mk(b).Encode(&eb, false)
+			// (an argument that holds nothing is no exception: its mapping is still another mapping)
+			emptyB := ddsketch.NewDDSketchFromStoreProvider(b.M, store.SparseStoreConstructor)
+			if r.Bool() {
+				emptyB.Add(b.ClampIn(3))
+				emptyB.Clear()
+			}
+			if e := mk(a).MergeWith(emptyB); (e == nil) != ab {
+				c.Failf("gate.empty_argument:MergeWith", "%s / %s: Equals=%v but MergeWith of an empty sketch returned %v", a.Desc, b.Desc, ab, e)
+			}
 			errMerge := mk(a).MergeWith(mk(b))
 			errDecode := mk(a).DecodeAndMergeWith(eb)
 			_, errStream := ddsketch.DecodeDDSketch(append(append([]byte{}, ea...), eb...), store.SparseStoreConstructor, nil)
